@@ -19,7 +19,9 @@ TRUSTED = [
     "standard-library axioms); round-2/3 proofs reuse ParseProofs/{Spelling,Dispatch,ErrorSound,Chain,Actions,ActionsLoop,ActionsTop,UnparseProofs}.v "
     "of C08/C09/C10/C07/C02 (imported, unchanged)",
     "extraction: ExtrOcamlBasic only, no Extract Constant; OCaml driver ocaml/dynamic_driver.ml + common_parse/spec.ml",
-    "correspondence: vp/props/c18.py generators, harness/src/modes/dynamic.rs, multiset comparison of (value, hidden) candidates",
+    "correspondence: vp/props/c18.py generators, harness/src/modes/dynamic.rs, multiset comparison of (value, hidden) candidates; "
+    "stream `order`: LIST comparison against complete_model_ord (the model with the final stable sort; display orders and "
+    "help headings explicit in the case: (x-ord n), (x-heading h))",
     "modelled not verified: Parse/Build.v blocks of Command::_build_self and Parse/Valid.v assert_app (shared parser model), "
     "Vec::sort/dedup/retain of Rust core, str::starts_with, to_string_lossy on the ASCII '-'",
     "acceptance oracle: the real parser (Command::try_get_matches_from) run by the harness on the completed line",
@@ -28,7 +30,11 @@ ASSUMPTIONS = [
     "64-bit usize; OsStr = bytes (Unix); debug build (assert_app active inside Command::build)",
     "the command handed to complete() has not been built before (Built flag clear)",
     "no custom completers / value hints installed (path completion out of scope, current_dir = None)",
-    "the final stable sort by (tag, display order) is not modelled: candidate lists are compared as multisets",
+    "the final stable sort by (tag, display order) is modelled in Complete/EngineOrder.v (complete_model_ord; stream `order` compares "
+    "lists); the other streams compare multisets.  The tag of a VALUE candidate (arg.to_string()) is the abstract tag TArg id: the "
+    "rendered names of the arguments of one level are assumed pairwise different and different from the help headings; implicit "
+    "display orders (clap's next_display_order counter) and subcommand_help_heading are not modelled: stream `order` sets every "
+    "display order explicitly and leaves out lines through the generated `help` subcommand",
     "pos_index/count arithmetic is unbounded N in the model (bounded by the number of argv words in the code)",
 ]
 TECHNIQUE = ("Coq proof (totality incl. fuel, soundness, completeness of the engine model; simulation between the engine's shadow "
@@ -37,7 +43,7 @@ TECHNIQUE = ("Coq proof (totality incl. fuel, soundness, completeness of the eng
              "options, -o=v, per-level subcommand_precedence_over_arg and args_conflicts_with_subcommands, with the engine's pos_index "
              "and valid_arg_found proved equal to the parser's counter and flag; level correspondence) + extracted-model/implementation "
              "correspondence")
-LEVEL_TEXT = ("Machine-checked theorems (Coq 8.16, 67 pinned, all closed under the global context) about a function-by-function "
+LEVEL_TEXT = ("Machine-checked theorems (Coq 8.16, 71 pinned, all closed under the global context) about a function-by-function "
               "model of clap_complete::engine::complete: no panic site is reachable and no fuel runs out for any command, argv "
               "and index (build_full's fuel proved sufficient); in state ValueDone every option/subcommand candidate extends the "
               "word and names an option/alias/subcommand of the level reached by the shadow parse; under assert_app's uniqueness "
@@ -67,12 +73,17 @@ LEVEL_TEXT = ("Machine-checked theorems (Coq 8.16, 67 pinned, all closed under t
               "C18_flag_agreement: level, pos_index and valid_arg_found equal the parser's) and END TO END C18_candidate_accepted_pline "
               "(supersedes the round-3 line theorem: C18_cline_is_pline), including levels with args_conflicts_with_subcommands "
               "(left before their own arguments; behind one, a subcommand name is a positional value for both machines: "
-              "C18_args_conflict_levels; before/after witnesses of the finding: C18_args_conflict_before_after).  "
+              "C18_args_conflict_levels; before/after witnesses of the finding: C18_args_conflict_before_after).  The candidate's hide "
+              "flag is the DEFINITIONAL one in every state - a hidden alias of a visible option is a hidden spelling "
+              "(C18_hide_flag_definitional, C18_hidden_rule_definitional).  ORDER: the final stable sort by (position of the tag, display "
+              "order) is modelled (complete_model_ord); C18_sort_final_spec: its result is a permutation of its input, sorted by the key, "
+              "stable; C18_order_is_permutation: the ordered result is a permutation of the unordered model's.  "
               "The model is tied to clap_complete by running the extracted model "
               "and the real crate on the same generated cases on every check; an independent python oracle splices each candidate "
               "into the line and has the real parser accept it.")
 LEVEL_NOTE = ("Trusted: Coq kernel, extraction, OCaml driver, Rust harness, generators; Command::build blocks and assert_app "
-              "shared with the parser model.  Differential/oracle only: ordering of candidates; agreement of the shadow parse's "
+              "shared with the parser model.  Differential/oracle only: the sort data themselves (clap's display-order counter, headings, rendered argument names as tags: "
+              "stream `order` compares lists with the real crate); agreement of the shadow parse's "
               "state with the parser's OUTSIDE the classes item18/pitems18/body18 (multi-valued options with fewer than max values "
               "followed by another argument, terminators, hyphen values, require_equals, low-index multiples / allow_missing_positional, "
               "a bounded multi-valued positional after its maximum, flag subcommands, inferred names, the generated help subtree); "
@@ -537,6 +548,10 @@ def arg_sx_x(a):
     s = gen_cmd.arg_sx(a)
     if a.get("x_pv"):
         s = s[:-1] + " (x-pv %s))" % " ".join("(%s %s)" % (hexs(v), "h" if h else "v") for v, h in a["x_pv"])
+    if a.get("x_ord") is not None:
+        s = s[:-1] + " (x-ord %d))" % a["x_ord"]
+    if a.get("x_heading") is not None:
+        s = s[:-1] + " (x-heading %s))" % hexs(a["x_heading"])
     return s
 
 
@@ -556,6 +571,8 @@ def cmd_sx_x(c):
         it.append("(set %s)" % " ".join(c["settings"]))
     if c.get("ext"):
         it.append("(ext %s)" % c["ext"])
+    if c.get("x_ord") is not None:
+        it.append("(x-ord %d)" % c["x_ord"])
     for a in c.get("args", []):
         it.append(arg_sx_x(a))
     for g in c.get("groups", []):
@@ -632,6 +649,64 @@ def gen_random(rng, ntrees, per_tree, mode, every_index=True, conventional=False
                     av.append(rng.choice(words))
                 out.append(case_line(mode, cmdtxt, av, i))
     return out
+
+
+HEADINGS = [b"Head", b"Zed", b"Options", b"Commands"]
+
+
+def order_decorate(rng, c, amap, smap, top=True):
+    """explicit sort data on EVERY argument and subcommand (the model's side table is keyed by the arg id resp. the
+    subcommand name: the same id / name gets the same display order and heading everywhere in one tree); small numbers, so
+    that ties - which the stable sort must leave in generation order - are frequent"""
+    for a in c["args"]:
+        if a["id"] not in amap:
+            amap[a["id"]] = (rng.randrange(0, 4), rng.choice(HEADINGS) if rng.random() < 0.25 else None)
+        a["x_ord"], a["x_heading"] = amap[a["id"]]
+    for sc in c["subs"]:
+        if sc["name"] not in smap:
+            smap[sc["name"]] = rng.randrange(0, 4)
+        sc["x_ord"] = smap[sc["name"]]
+        order_decorate(rng, sc, amap, smap, False)
+
+
+def gen_order(rng, ntrees, per_tree):
+    """stream `order`: the candidates AS A LIST against the model with the final stable sort (complete_model_ord).  Lines that
+    walk through the generated `help` subcommand are left out (its subtree is rebuilt by clap with display orders of its own)"""
+    prof = gen_cmd.Profile(hyphen=0.2, flag_subs=0.0, invalid=0.0, env=0.0)
+    out = []
+    for _ in range(ntrees):
+        c = gen_cmd.gen_cmd(rng, prof)
+        decorate(rng, c, {})
+        order_decorate(rng, c, {}, {})
+        cmdtxt = cmd_sx_x(c)
+        longs, shorts, subs = [b"help", b"version"], ["h", "V"], [b"help"]
+        names_of(c, longs, shorts, subs)
+        for _ in range(per_tree):
+            argv = gen_cmd.gen_argv(rng, c, p_mutate=0.3, safe_p=0.7)
+            if len(argv) > 7:
+                argv = argv[:7]
+            words = [b"", b"-", b"--", b"--a", b"-h", b"h", b"s", b"p", b"pv", b"a,p"] + words_for(rng, longs, shorts, subs)
+            for i in range(1, len(argv) + 1):
+                av = list(argv)
+                if b"help" in av[:i]:
+                    continue
+                w = rng.choice([b"", b"", b"-", b"--"]) if rng.random() < 0.65 else rng.choice(words)
+                if i < len(av):
+                    av[i] = w
+                else:
+                    av.append(w)
+                out.append(case_line("dynorder", cmdtxt, av, i))
+    return out
+
+
+def project_order(r):
+    """the candidates in the order returned: lists, not multisets"""
+    head, _ = split_result(r)
+    if head.startswith("PANIC"):
+        return "PANIC"
+    if head.startswith("ok"):
+        return "ok " + " ".join("%s:%s" % (hexs(v), "h" if h else "v") for v, h in cands_of(head))
+    return head
 
 
 def h(b):
@@ -830,6 +905,19 @@ def shape(w):
     return "plain"
 
 
+def order_stats(cases):
+    """how often the final sort matters: cases with >= 2 candidates, and cases in which the sorted list differs from the
+    generation order (model driver: `dynorder` against `dyn`)"""
+    mbin = os.path.join(core.ROOT, "ocaml", "bin", "dynamic")
+    if not os.path.exists(mbin):
+        return {}
+    a = core.run_cases(mbin, cases, "C18.ordstat.a")
+    b = core.run_cases(mbin, ["(dyn" + c[len("(dynorder"):] for c in cases], "C18.ordstat.b")
+    two = sum(1 for x in a if x and x.count("(") >= 2)
+    diff = sum(1 for x, y in zip(a, b) if x != y)
+    return {"cases": len(cases), "at least two candidates": two, "sorted order differs from generation order": diff}
+
+
 def coverage(cases, tag):
     """ParseState (from the model driver's `dynstate` mode) x shape of the word under the cursor"""
     mbin = os.path.join(core.ROOT, "ocaml", "bin", "dynamic")
@@ -859,6 +947,7 @@ def streams(tier, rng):
         + gen_random(rng, 80 if quick else 700, 2, "dynaccept", conventional=True) \
         + gen_states(rng, tier, "dynaccept", 1 if quick else 2, 250 if quick else 3000) \
         + gen_pending("dynaccept") + gen_precedence("dynaccept") + gen_argsconflict("dynaccept")
+    ord_cases = gen_order(rng, 60 if quick else 600, 3)
     return [
         Stream("dyn", dyn_cases, oracle=total_oracle, area="dynamic", project=project, nontrivial=nontrivial,
                describe={"state x word-shape": coverage(dyn_cases, "dyn")}),
@@ -866,6 +955,8 @@ def streams(tier, rng):
                describe={"state x word-shape": coverage(st_cases, "states")}),
         Stream("accept", acc_cases, oracle=accept_oracle, area="dynamic", project=project, nontrivial=nontrivial,
                describe={"state x word-shape": coverage(acc_cases, "accept")}),
+        Stream("order", ord_cases, oracle=total_oracle, area="dynamic", project=project_order, nontrivial=nontrivial,
+               describe={"final sort": order_stats(ord_cases)}),
         Stream("paths", gen_paths(), oracle=total_oracle, area=None, nontrivial=lambda c, r: bool(r) and r.startswith("ok")),
     ]
 
